@@ -93,8 +93,7 @@ def send2 (md : Mode) (cr : Crypto) (iv : Bytes) (tx : Tx2) (m : Int) (est : Nat
     let tx1 : Tx2 := { tx with enc := e, ivSent := tx.ivSent || md.enc }
     if md.auth then
       let tag := cr.mac (line ++ [10] ++ strBytes (Codec.str62 (tx.sqn : Nat)))
-      some ({ tx1 with sqn := tx.sqn + 1, macAcc := line ++ [10] ++ strBytes (Codec.str62 (tx.sqn : Nat)) },
-        pre ++ line ++ [10] ++ tag)
+      some ({ tx1 with sqn := tx.sqn + 1 }, pre ++ line ++ [10] ++ tag)
     else some (tx1, pre ++ line ++ [10])
 
 /-- the link as the sender sees it: a FIFO of bounded capacity -/
